@@ -19,6 +19,10 @@ type SwComponents[I ISwComponent] struct {
 
 func (o SwComponents[I]) Validate() error {
 	for i, sc := range o.values {
+		if isNilComponent(sc) {
+			return fmt.Errorf("failed at index %d: %w: null component", i, ErrWrongSyntax)
+		}
+
 		if err := sc.Validate(); err != nil {
 			return fmt.Errorf("failed at index %d: %w", i, err)
 		}
@@ -31,6 +35,10 @@ func (o SwComponents[I]) Values() ([]ISwComponent, error) {
 	ret := make([]ISwComponent, len(o.values))
 
 	for i, sc := range o.values {
+		if isNilComponent(sc) {
+			return nil, fmt.Errorf("failed at index %d: %w: null component", i, ErrWrongSyntax)
+		}
+
 		if err := sc.Validate(); err != nil {
 			return nil, fmt.Errorf("failed at index %d: %w", i, err)
 		}
@@ -81,6 +89,18 @@ func (o SwComponents[I]) MarshalJSON() ([]byte, error) {
 
 func (o *SwComponents[I]) UnmarshalJSON(v []byte) error {
 	return json.Unmarshal(v, &o.values)
+}
+
+// isNilComponent reports whether sc is nil or wraps a nil pointer (as
+// produced by decoding a null array element).
+func isNilComponent(sc ISwComponent) bool {
+	if sc == nil {
+		return true
+	}
+
+	v := reflect.ValueOf(sc)
+
+	return v.Kind() == reflect.Pointer && v.IsNil()
 }
 
 func validateAndConvert[I ISwComponent](vals []ISwComponent) ([]I, error) {
